@@ -246,13 +246,25 @@ WITNESSES = {
 }
 
 
-def lattice_engine(planner, tier, seed):
-    conf = LAT_CONFIGS[planner]
+API_CONFIGS = {
+    'quick': [('api4-faults', q(V_MAXCALLS=4, V_MAXK=3))],
+    'thorough': [('api5-faults', q(V_MAXCALLS=5, V_MAXK=4))],
+}
+
+
+def lattice_engine(planner, tier, seed, api=False):
+    if api:
+        conf = {'module': 'MC_PlannerAPI',
+                'quick': [(n, {**e, 'V_PLANNER': planner}) for n, e in API_CONFIGS['quick']],
+                'thorough': [(n, {**e, 'V_PLANNER': planner}) for n, e in API_CONFIGS['thorough']]}
+    else:
+        conf = LAT_CONFIGS[planner]
     cfgs = list(conf['quick']) + (list(conf['thorough']) if tier == 'thorough' else [])
     build_harness()
-    res = {'engine': 'lat:' + planner, 'planner': planner, 'configs': [], 'violations': [], 'samples': [],
+    ename = ('api:' if api else 'lat:') + planner
+    res = {'engine': ename, 'planner': planner, 'configs': [], 'violations': [], 'samples': [],
            'states': 0, 'transitions': 0, 'traces': 0, 'events': 0, 'witnesses': [], 'label_counts': {}}
-    work = os.path.join(BUILD, 'work', f'lat-{planner}-{tier}')
+    work = os.path.join(BUILD, 'work', f"{'api' if api else 'lat'}-{planner}-{tier}")
     shutil.rmtree(work, ignore_errors=True)
     os.makedirs(work)
     for name, env in cfgs:
@@ -264,8 +276,9 @@ def lattice_engine(planner, tier, seed):
         hist = os.path.join(st['dir'], 'hist.ndjson')
         nshards = 8 if st.get('kept_after_prefix_elimination', 0) > 4000 else 1
         trace = os.path.join(work, f'{name}.trace')
-        p = run([os.path.join(HARNESS_BIN, 'latreplay'), '--in', hist, '--out', trace, '--shards', str(nshards)],
-                stdout=subprocess.DEVNULL, timeout=1800)
+        twice = ['--twice'] if (api or 'api' in name) else []
+        p = run([os.path.join(HARNESS_BIN, 'latreplay'), '--in', hist, '--out', trace, '--shards', str(nshards),
+                 '--seed', str(seed)] + twice, stdout=subprocess.DEVNULL, timeout=1800)
         if p.returncode != 0:
             raise ToolError(f'latreplay failed on {hist}: {p.stderr[-1500:]}')
         info = json.loads(p.stderr.strip().splitlines()[-1])
@@ -278,7 +291,7 @@ def lattice_engine(planner, tier, seed):
             for lab in v['labels']:
                 res['label_counts'][lab] = res['label_counts'].get(lab, 0) + 1
                 if sum(1 for x in res['violations'] if x['label'] == lab and x['cfg'] == name) < 5:
-                    res['violations'].append({'label': lab, 'planner': planner, 'engine': 'lat:' + planner, 'cfg': name,
+                    res['violations'].append({'label': lab, 'planner': planner, 'engine': ename, 'cfg': name,
                                               'run': v['run'], 'line': v['line'], 'mode': 'lattice',
                                               'input': json.loads(hist_lines[v['run'] - 1])})
         if hist_lines is None:
@@ -297,7 +310,7 @@ def lattice_engine(planner, tier, seed):
         res['events'] += events
         for t in traces:
             os.remove(t)
-    for wname, module, env, expect in WITNESSES.get(planner, []):
+    for wname, module, env, expect in ([] if api else WITNESSES.get(planner, [])):
         st = tlc_mc(module, env, emit=False, timeout=600)
         res['witnesses'].append({'switch': wname, 'expected_violation': expect, 'violated': st['violated'],
                                  'as_expected': any(e in st['violated'] for e in expect)})
@@ -308,6 +321,7 @@ def lattice_engine(planner, tier, seed):
 
 TREE = ['lat:rrt', 'lat:rrtstar', 'lat:rrtc']
 ALL4 = TREE + ['lat:prm']
+API4 = ['api:rrt', 'api:rrtstar', 'api:rrtc', 'api:prm']
 
 PROPS = {
     'C01': {'prefixes': ['C01/'], 'engines': ALL4, 'level': 'model_checking'},
@@ -315,6 +329,8 @@ PROPS = {
     'C03': {'prefixes': ['C03/'], 'engines': ALL4, 'level': 'model_checking'},
     'C05': {'prefixes': ['C05/'], 'engines': ALL4, 'level': 'model_checking'},
     'C06': {'prefixes': ['C06/'], 'engines': ALL4, 'level': 'model_checking'},
+    'C07': {'prefixes': ['C07/'], 'engines': ALL4 + API4, 'level': 'model_checking'},
+    'C08': {'prefixes': ['C08/'], 'engines': API4 + ALL4, 'level': 'fault_enumeration'},
     'C15': {'prefixes': ['C15/'], 'engines': TREE, 'level': 'model_checking'},
     'C16': {'prefixes': ['C16/'], 'engines': TREE, 'level': 'model_checking'},
     'C17': {'prefixes': ['C17/'], 'engines': ['lat:rrtstar'], 'level': 'model_checking'},
@@ -337,6 +353,8 @@ def run_engine(name, tier, seed):
     kind, _, arg = name.partition(':')
     if kind == 'lat':
         r = lattice_engine(arg, tier, seed)
+    elif kind == 'api':
+        r = lattice_engine(arg, tier, seed, api=True)
     else:
         raise ToolError('unknown engine ' + name)
     r['wall_s'] = round(time.time() - t0, 1)
@@ -359,7 +377,10 @@ def load_known():
 def finding_matches(f, pid, v):
     if f.get('property') != pid:
         return False
-    lab = f.get('label', '')
+    if 'label_re' in f:
+        if not re.fullmatch(f['label_re'], v['label']):
+            return False
+    lab = f.get('label', v['label'])
     if lab.endswith('*'):
         if not v['label'].startswith(lab[:-1]):
             return False
@@ -399,7 +420,7 @@ def run_check(pid, tier, seed):
             unknown.append(v)
     for k, vs in known_hit.items():
         f = json.loads(k)
-        print(f"KNOWN-FINDING: property={pid} {f.get('label')} planner={f.get('planner', '*')} - {f.get('what', '')} "
+        print(f"KNOWN-FINDING: property={pid} {f.get('label', f.get('label_re'))} planner={f.get('planner', '*')} - {f.get('what', '')} "
               f"({len(vs)} sample occurrence(s) this run)")
     rdir = os.path.join(BUILD, 'replays', pid)
     shutil.rmtree(rdir, ignore_errors=True)
@@ -428,7 +449,10 @@ def write_evidence(pid, tier, seed, spec, results, counts, nviol, wall, known_hi
         'trace_events_validated': sum(r.get('events', 0) for r in results),
         'samples': [s for r in results for s in r.get('samples', [])][:6] or [{'note': 'no passing sample recorded'}],
         'exhaustive': True,
-        'rule': 'TLC explores each configuration exhaustively (all worlds / problems / sample sequences / call histories within '
+        'evaluations': sum(r.get('traces', 0) for r in results),
+        'distinct_nontrivial': sum(c.get('distinct_final_snapshots', 0) for r in results for c in r.get('configs', [])),
+        'rule': 'distinct_nontrivial = number of distinct (world, problem, final planner snapshot) triples the real planner '
+                'reached, counted by the harness; evaluations = histories executed. 'TLC explores each configuration exhaustively (all worlds / problems / sample sequences / call histories within '
                 'the stated bounds); every history it emits is executed on the real planner over a lattice space and the '
                 'recorded trace is validated event by event by spec/TraceMonitor.tla',
         'engines': [{'engine': r['engine'], 'configs': r.get('configs', []), 'witnesses': r.get('witnesses', []),
